@@ -449,6 +449,12 @@ def build(tier, only=None):
     rep.replayers["C04/table/"] = replay_table
     rep.replayers["C04/rule/"] = replay_rule
     rep.replayers["C04/infer/"] = replay_rule
+    # bounded stand-in for the rewriter as a whole (traversal, folding across types, cast rules): random graphs, never proofs
+    if only is None or "bounded" in only:
+        from vf.contracts import C04_bounded
+
+        C04_bounded.run(rep, tier)
+        rep.replayers["C04/bounded"] = C04_bounded.replay
     return rep
 
 
